@@ -539,6 +539,52 @@ pub open spec fn pmessage_frame(f: RespFrame, pattern: Seq<u8>, channel: Seq<u8>
 pub open spec fn ack_frame(f: RespFrame, kind: Seq<char>, name: Seq<u8>, count: usize) -> bool {
     f matches RespFrame::Array(Some(v)) && v@.len() == 3 && v@[0] == tag_frame(kind) && is_bulk(v@[1], name) && v@[2] == RespFrame::Integer(count as i64)
 }
+// ======================= disconnect: unsubscribe_all =========================
+// PubSubManager::unsubscribe_all walks both maps with HashMap::iter_mut (no vstd specification: the loops as wholes stay
+// unverified). Under contract are its steps: each visited subscriber set loses exactly the closing connection and a set that
+// became empty is queued for removal; each queued name is removed from its map and nothing else is.
+//@@ unit unsub_all_channel_step loopbody src/pubsub.rs PubSubManager::unsubscribe_all "for (channel, subscribers) in channel_subs.iter_mut()"
+fn unsub_all_channel_step(channel: &Vec<u8>, subscribers: &mut HashSet<u64>, channels_to_remove: &mut Vec<Vec<u8>>, connection_id: u64)
+    requires old(subscribers)@.finite(),
+    ensures final(subscribers)@ == old(subscribers)@.remove(connection_id),
+        final(subscribers)@.len() == 0 ==> final(channels_to_remove)@.len() == old(channels_to_remove)@.len() + 1 && final(channels_to_remove)@.last()@ == channel@
+            && final(channels_to_remove)@.drop_last() =~= old(channels_to_remove)@,
+        final(subscribers)@.len() != 0 ==> final(channels_to_remove)@ == old(channels_to_remove)@,
+//@@ body
+//@@ end
+//@@ unit unsub_all_pattern_step loopbody src/pubsub.rs PubSubManager::unsubscribe_all "for (pattern, subscribers) in pattern_subs.iter_mut()"
+fn unsub_all_pattern_step(pattern: &Vec<u8>, subscribers: &mut HashSet<u64>, patterns_to_remove: &mut Vec<Vec<u8>>, connection_id: u64)
+    requires old(subscribers)@.finite(),
+    ensures final(subscribers)@ == old(subscribers)@.remove(connection_id),
+        final(subscribers)@.len() == 0 ==> final(patterns_to_remove)@.len() == old(patterns_to_remove)@.len() + 1 && final(patterns_to_remove)@.last()@ == pattern@
+            && final(patterns_to_remove)@.drop_last() =~= old(patterns_to_remove)@,
+        final(subscribers)@.len() != 0 ==> final(patterns_to_remove)@ == old(patterns_to_remove)@,
+//@@ body
+//@@ end
+//@@ unit unsub_all_drop_channel loopbody src/pubsub.rs PubSubManager::unsubscribe_all "for channel in channels_to_remove"
+fn unsub_all_drop_channel(channel_subs: &mut HashMap<Vec<u8>, HashSet<u64>>, channel: Vec<u8>)
+    ensures final(channel_subs)@ == old(channel_subs)@.remove(channel),
+//@@ body
+//@@ end
+//@@ unit unsub_all_drop_pattern loopbody src/pubsub.rs PubSubManager::unsubscribe_all "for pattern in patterns_to_remove"
+fn unsub_all_drop_pattern(pattern_subs: &mut HashMap<Vec<u8>, HashSet<u64>>, pattern: Vec<u8>)
+    ensures final(pattern_subs)@ == old(pattern_subs)@.remove(pattern),
+//@@ body
+//@@ end
+// the last statement: the connection's own entry goes, so is_subscribed (conn_subs.contains_key) is false afterwards
+//@@ unit unsub_all_forget stmts src/pubsub.rs PubSubManager::unsubscribe_all "conn_subs.remove(&connection_id);" upto "Ok(())"
+fn unsub_all_forget(conn_subs: &mut HashMap<u64, SubscriberInfo>, connection_id: u64)
+    ensures final(conn_subs)@ == old(conn_subs)@.remove(connection_id), !final(conn_subs)@.contains_key(connection_id),
+//@@ body
+//@@ end
+//@@ unit is_subscribed fn src/pubsub.rs PubSubManager::is_subscribed
+//@@   rewrite R2
+//@@   params drop "&self" add "conn_subs: &HashMap<u64, SubscriberInfo>"
+fn is_subscribed(conn_subs: &HashMap<u64, SubscriberInfo>, connection_id: u64) -> (r: bool)
+    ensures r == conn_subs@.contains_key(connection_id),
+//@@ body
+//@@ end
+
 //@@ unit format_message fn src/pubsub.rs format_message
 pub fn format_message(channel: &[u8], message: &[u8]) -> (r: RespFrame)
     ensures message_frame(r, channel@, message@),
